@@ -6,7 +6,9 @@ import (
 	"fmt"
 	"io"
 	"net"
+	"os"
 	"strings"
+	"syscall"
 	"time"
 
 	"tunnox-core/internal/client/mapping"
@@ -119,7 +121,7 @@ func (t *c12tun) Read(p []byte) (int, error) {
 	n, err := t.c.Read(p)
 	t.delivered += int64(n)
 	if err != nil {
-		t.ended(err, !t.c.Closed())
+		t.ended(err, !t.c.Closed() && !c12IsTimeout(err))
 		return n, err
 	}
 	if t.cutAt >= 0 && t.delivered == t.cutAt && t.withData {
@@ -157,6 +159,26 @@ func (t *c12tun) Write(p []byte) (int, error) {
 func (t *c12tun) Close() error      { t.closes++; return t.c.Close() }
 func (t *c12tun) CloseWrite() error { t.closeWrites++; return t.c.CloseWrite() }
 
+func c12IsTimeout(err error) bool {
+	te, ok := err.(interface{ Timeout() bool })
+	return ok && te.Timeout()
+}
+
+// c12tunDL is the same endpoint seen as a socket (net.Conn-like): it also has
+// deadlines, which work as on a socket (a deadline interrupts a blocked call).
+type c12tunDL struct{ *c12tun }
+
+func (x c12tunDL) SetDeadline(d time.Time) error      { return x.c.SetDeadline(d) }
+func (x c12tunDL) SetReadDeadline(d time.Time) error  { return x.c.SetReadDeadline(d) }
+func (x c12tunDL) SetWriteDeadline(d time.Time) error { return x.c.SetWriteDeadline(d) }
+
+// c12tunNoCWDL: deadlines but no half-close.
+type c12tunNoCWDL struct{ c12tunNoCW }
+
+func (x c12tunNoCWDL) SetDeadline(d time.Time) error      { return x.t.c.SetDeadline(d) }
+func (x c12tunNoCWDL) SetReadDeadline(d time.Time) error  { return x.t.c.SetReadDeadline(d) }
+func (x c12tunNoCWDL) SetWriteDeadline(d time.Time) error { return x.t.c.SetWriteDeadline(d) }
+
 // c12tunNoCW is a tunnel transport without half-close support.
 type c12tunNoCW struct{ t *c12tun }
 
@@ -170,6 +192,13 @@ type c12udp struct {
 	c      io.ReadWriteCloser
 	inRead bool
 	closes int
+
+	w           *simrt.World
+	failAt      int // 1-based index of the first Write call that fails (0: none)
+	failN       int // number of consecutive failing Write calls
+	failErr     error
+	writes      int
+	writeFaults int
 }
 
 func (u *c12udp) Read(p []byte) (int, error) {
@@ -178,8 +207,16 @@ func (u *c12udp) Read(p []byte) (int, error) {
 	u.inRead = false
 	return n, err
 }
-func (u *c12udp) Write(p []byte) (int, error) { return u.c.Write(p) }
-func (u *c12udp) Close() error                { u.closes++; return u.c.Close() }
+func (u *c12udp) Write(p []byte) (int, error) {
+	u.writes++
+	if u.failAt > 0 && u.writes >= u.failAt && u.writes < u.failAt+u.failN {
+		u.w.Yield("udp.write.fault")
+		u.writeFaults++
+		return 0, u.failErr
+	}
+	return u.c.Write(p)
+}
+func (u *c12udp) Close() error { u.closes++; return u.c.Close() }
 
 // c12udpDL additionally exposes the endpoint's own read-deadline behaviour
 // (a socket wakes a blocked Read, mapping.UDPVirtualConn only samples the
@@ -434,7 +471,7 @@ func c12TCPSize(c *simrt.Choice) int {
 	}
 }
 
-func c12Script(w *simrt.World, name string, conn *simnet.Conn, x byte, long bool) *c12peer {
+func c12Script(w *simrt.World, name string, conn *simnet.Conn, x byte, long, slow bool) *c12peer {
 	c := w.C
 	p := &c12peer{w: w, name: name, conn: conn, eofCh: make(chan struct{})}
 	n := c12TCPSize(c)
@@ -449,9 +486,19 @@ func c12Script(w *simrt.World, name string, conn *simnet.Conn, x byte, long bool
 			n = 2 * k
 		}
 	}
+	if slow {
+		// bytes keep flowing, with pauses of seconds to tens of seconds between the
+		// chunks (a slow producer: report generation, dump, tar | nc)
+		if k < 2 {
+			k = 2
+		}
+		if n < 2*k {
+			n = 2 * k
+		}
+	}
 	p.payload = c12Payload(n, x)
 	for i := 1; i < k; i++ {
-		if long {
+		if long || slow {
 			p.cuts = append(p.cuts, i*n/k)
 		} else {
 			p.cuts = append(p.cuts, c.Intn(n+1, name+".chunk.at"))
@@ -464,6 +511,11 @@ func c12Script(w *simrt.World, name string, conn *simnet.Conn, x byte, long bool
 		if long {
 			if i > 0 {
 				g = 2*time.Minute + time.Duration(c.Intn(1000, name+".gap"))*time.Millisecond
+			}
+		} else if slow {
+			if i > 0 {
+				g = []time.Duration{1500 * time.Millisecond, 4 * time.Second, 11 * time.Second, 20 * time.Second}[c.Intn(4, name+".slowgap")] +
+					time.Duration(c.Intn(1000, name+".gap"))*time.Millisecond
 			}
 		} else if c.Intn(3, name+".gap?") == 2 {
 			g = time.Duration(1+c.Intn(40, name+".gap")) * time.Millisecond
@@ -486,6 +538,7 @@ func c12TCP(w *simrt.World, via bool) {
 	// ---- swarm configuration
 	long := via && c.Intn(5, "tcp.long") == 4 // a transfer that stays active for more than 5 minutes
 	limited := !via && c.Intn(4, "tcp.ratelimited") == 3
+	slow := !long && c.Intn(5, "tcp.slow") == 4 // seconds between chunks; the whole transfer stays below 4 minutes
 	noCW := c.Intn(5, "tcp.tunnel.nocw") == 4
 	wrap := c.Intn(2, "tcp.tunnel.wrap") // 0: iocopy.NewReadWriteCloser (as production), 1: endpoint itself
 	laws := [4]simnet.Law{}
@@ -495,8 +548,8 @@ func c12TCP(w *simrt.World, via bool) {
 	capL := []int{0, 1 << 16, 4096, 100}[c.Intn(4, "tcp.capL")]
 	capT := []int{0, 1 << 16, 4096, 100}[c.Intn(4, "tcp.capT")]
 
-	app := c12Script(w, "app", nil, 0x00, long)
-	rem := c12Script(w, "rem", nil, 0xff, long)
+	app := c12Script(w, "app", nil, 0x00, long, slow)
+	rem := c12Script(w, "rem", nil, 0xff, long, slow)
 	total := len(app.payload) + len(rem.payload)
 	if total > 20000 {
 		for i := range laws {
@@ -539,9 +592,22 @@ func c12TCP(w *simrt.World, via bool) {
 	// the last bytes (io.Reader allows n > 0 with io.EOF; TLS and QUIC streams do it)
 	t.rideEnd = c.Intn(3, "tcp.tunnel.ride-eof") == 2
 	loc := &c12tun{w: w, c: lb, cutAt: -1, release: t.release, rideEnd: c.Intn(3, "tcp.local.ride-eof") == 2}
+	// what else the relay can see of its endpoints: the local application socket is a
+	// net.Conn in production (deadlines), the tunnel end only when it is not wrapped
+	locDL := c.Intn(3, "tcp.local.deadlines") != 2
+	tunDL := c.Intn(2, "tcp.tunnel.deadlines") == 1
+	var locEnd io.ReadWriteCloser = loc
+	if locDL {
+		locEnd = c12tunDL{loc}
+	}
 	var tunEnd io.ReadWriteCloser = t
-	if noCW {
+	switch {
+	case noCW && tunDL:
+		tunEnd = c12tunNoCWDL{c12tunNoCW{t}}
+	case noCW:
 		tunEnd = c12tunNoCW{t}
+	case tunDL:
+		tunEnd = c12tunDL{t}
 	}
 	tunRWC := tunEnd
 	if wrap == 0 {
@@ -567,6 +633,9 @@ func c12TCP(w *simrt.World, via bool) {
 		if long {
 			s = "tunnel-long-lived"
 		}
+		if slow {
+			s += "-slow"
+		}
 		return s
 	}()
 	cutName := "nocut"
@@ -576,13 +645,13 @@ func c12TCP(w *simrt.World, via bool) {
 			cutName = "cut-err"
 		}
 	}
-	w.Sample(fmt.Sprintf("tcp via=%v long=%v ratelimited=%v nocw=%v wrap=%d laws=%v capL=%d capT=%d app{len=%d chunks=%v gaps=%v end=%s mark=%d} rem{len=%d chunks=%v gaps=%v end=%s mark=%d} cut=%d err=%v withdata=%v failwrites=%v ride-eof{local=%v tunnel=%v}",
+	w.Sample(fmt.Sprintf("tcp via=%v long=%v ratelimited=%v nocw=%v wrap=%d laws=%v capL=%d capT=%d app{len=%d chunks=%v gaps=%v end=%s mark=%d} rem{len=%d chunks=%v gaps=%v end=%s mark=%d} cut=%d err=%v withdata=%v failwrites=%v ride-eof{local=%v tunnel=%v} deadlines{local=%v tunnel=%v}",
 		via, long, limited, noCW, wrap, laws, capL, capT, len(app.payload), app.cuts, app.gaps, c12EndNames[app.end], app.mark,
-		len(rem.payload), rem.cuts, rem.gaps, c12EndNames[rem.end], rem.mark, t.cutAt, t.cutErr, t.withData, t.failWrites, loc.rideEnd, t.rideEnd))
-	w.State(fmt.Sprintf("tcp/%s/%s-%s/%s/nocw=%v/ride=%v,%v", class, c12EndNames[app.end], c12EndNames[rem.end], cutName, noCW, loc.rideEnd, t.rideEnd))
+		len(rem.payload), rem.cuts, rem.gaps, c12EndNames[rem.end], rem.mark, t.cutAt, t.cutErr, t.withData, t.failWrites, loc.rideEnd, t.rideEnd, locDL, tunDL))
+	w.State(fmt.Sprintf("tcp/%s/%s-%s/%s/nocw=%v/ride=%v,%v/dl=%v,%v", class, c12EndNames[app.end], c12EndNames[rem.end], cutName, noCW, loc.rideEnd, t.rideEnd, locDL, tunDL))
 
 	// ---- run
-	r := c12Start(w, false, via, loc, tunRWC, xf)
+	r := c12Start(w, false, via, locEnd, tunRWC, xf)
 	tasks := []*simrt.Task{
 		w.Spawn("app.rd", app.reader), w.Spawn("rem.rd", rem.reader),
 		w.Spawn("app.wr", app.writer), w.Spawn("rem.wr", rem.writer),
@@ -672,6 +741,9 @@ func c12TCP(w *simrt.World, via bool) {
 		w.Nontrivial()
 	}
 	w.Probe("tcp.class." + class)
+	if locDL || tunDL && wrap == 1 {
+		w.Probe("tcp.relay-sees-deadlines")
+	}
 
 	// ---- cleanup
 	close(t.release)
@@ -870,6 +942,22 @@ func c12UDP(w *simrt.World, via bool) {
 	if udpKind != 0 {
 		kindSuffix = ":" + kindName
 	}
+	// a fault on the relay's writes to the datagram side: which Write calls fail and how
+	// (a plain error, or the errno-typed transient errors of a connected UDP socket)
+	wfAt, wfN, wfName := 0, 0, "none"
+	var wfErr error
+	if len(in) > 0 && c.Intn(4, "udp.local.writefault") == 3 {
+		wfAt = 1 + c.Intn(len(in), "udp.local.writefault.at")
+		wfN = 1 + c.Biased(3, "udp.local.writefault.n")
+		switch c.Intn(3, "udp.local.writefault.kind") {
+		case 0:
+			wfName, wfErr = "econnrefused", &net.OpError{Op: "write", Net: "udp", Err: os.NewSyscallError("sendto", syscall.ECONNREFUSED)}
+		case 1:
+			wfName, wfErr = "enobufs", &net.OpError{Op: "write", Net: "udp", Err: os.NewSyscallError("sendto", syscall.ENOBUFS)}
+		default:
+			wfName, wfErr = "error", errors.New("c12: udp write failed (injected)")
+		}
+	}
 	lawIn := []simnet.Law{simnet.LawAll, simnet.LawMixed, simnet.LawMTU, simnet.LawSmall, simnet.LawOne}[c.Intn(5, "udp.law")]
 	if N > 6000 && (lawIn == simnet.LawSmall || lawIn == simnet.LawOne) {
 		lawIn = simnet.LawMTU
@@ -912,8 +1000,8 @@ func c12UDP(w *simrt.World, via bool) {
 	for _, d := range out {
 		outSizes = append(outSizes, len(d))
 	}
-	w.Sample(fmt.Sprintf("udp via=%v wrap=%d in=%v (encoded %dB, chunks=%v gaps=%v law=%s) out=%v gaps=%v cut=%d(%s) end=%s withdata=%v failwrites=%v ride-eof=%v local=%s",
-		via, wrap, inSizes, N, chunks, inGaps, simnet.LawNames[lawIn], outSizes, outGaps, t.cutAt, cutClass, endKind, t.withData, t.failWrites, t.rideEnd, kindName))
+	w.Sample(fmt.Sprintf("udp via=%v wrap=%d in=%v (encoded %dB, chunks=%v gaps=%v law=%s) out=%v gaps=%v cut=%d(%s) end=%s withdata=%v failwrites=%v ride-eof=%v local=%s writefault=%s@%d+%d",
+		via, wrap, inSizes, N, chunks, inGaps, simnet.LawNames[lawIn], outSizes, outGaps, t.cutAt, cutClass, endKind, t.withData, t.failWrites, t.rideEnd, kindName, wfName, wfAt, wfN))
 	w.State(fmt.Sprintf("udp/via=%v/%s/%s/wd=%v/fw=%v/in%d/out%d/%s", via, cutClass, endKind, t.withData, t.failWrites, c12Bucket(len(in)), c12Bucket(len(out)), kindName))
 
 	ua, ub := simnet.NewLink(w, simnet.LinkConfig{NameA: "app", NameB: "local", Message: true})
@@ -949,6 +1037,7 @@ func c12UDP(w *simrt.World, via bool) {
 		appClose = func() { vc.Close() } // what the stale-session sweep and adapter shutdown do
 		appSend = func(d []byte) error { adapter.InjectPacketForVerif(sock, appAddr, d); return nil }
 	}
+	local.w, local.failAt, local.failN, local.failErr = w, wfAt, wfN, wfErr
 	var tunRWC io.ReadWriteCloser = t
 	if wrap == 0 {
 		var err error
@@ -1048,11 +1137,11 @@ func c12UDP(w *simrt.World, via bool) {
 		// fault-free phase: the relay must frame and forward every datagram without
 		// needing further traffic or a close to push it out.
 		c12Await(w, scripted+5*time.Second, func() bool { return appWr.Done() && remWrote || r.returned() })
-		if !c12Await(w, w.Now()+c12Bound, func() bool { return outOK() || r.returned() }) {
+		if !c12Await(w, w.Now()+c12Bound, func() bool { return outOK() || r.returned() || local.writeFaults > 0 }) {
 			ds, rest := c12Decode(remGot)
 			w.Violationf("C12:udp-out:not-forwarded-while-idle", "application sent %d datagrams; %v later the far end has %d complete records (+%d stray bytes) and nothing else is going to happen", len(out), c12Bound, len(ds), rest)
 		}
-		inAll := c12Await(w, w.Now()+c12Bound, func() bool { return len(appGot) >= len(in) || r.returned() })
+		inAll := c12Await(w, w.Now()+c12Bound, func() bool { return len(appGot) >= len(in) || r.returned() || local.writeFaults > 0 })
 		if !inAll {
 			w.Violationf("C12:udp-in:not-delivered-while-idle", "far end wrote %d complete records, application has %d datagrams %v later", len(in), len(appGot), c12Bound)
 		}
@@ -1124,7 +1213,36 @@ func c12UDP(w *simrt.World, via bool) {
 			want = append(want, d)
 		}
 	}
+	if local.writeFaults > 0 {
+		// the datagram side refused writes: losing datagrams is acceptable, but whatever
+		// does reach the application must be datagrams that were sent, each at most
+		// once and in the order sent (a subsequence of the records before the end).
+		w.Fault("udp.write-fault." + wfName)
+		w.Nontrivial()
+		j := 0
+		for i, g := range appGot {
+			k := j
+			for k < len(want) && !bytes.Equal(g, want[k]) {
+				k++
+			}
+			if k == len(want) {
+				kind := "not-a-sent-datagram"
+				for b := 0; b < j; b++ {
+					if bytes.Equal(g, want[b]) {
+						kind = "duplicate-or-reordered"
+					}
+				}
+				w.Violationf("C12:udp-in:after-udp-write-error:"+kind+":"+wfName, "write #%d.. to the datagram side failed (%v); datagram #%d the application received afterwards (%d bytes, id %d) is %s: %d records precede the end of the tunnel stream, %d of them matched so far",
+					wfAt, wfErr, i, len(g), g[0], kind, len(want), j)
+				break
+			}
+			j = k + 1
+		}
+	}
 	for i, g := range appGot {
+		if local.writeFaults > 0 {
+			break
+		}
 		if i >= len(want) {
 			kind := "from-partial-record"
 			if len(want) == len(in) {
@@ -1142,7 +1260,7 @@ func c12UDP(w *simrt.World, via bool) {
 			break
 		}
 	}
-	if !appFirst && !t.cutErr && appGotAtVerdict < len(want) {
+	if !appFirst && !t.cutErr && local.writeFaults == 0 && appGotAtVerdict < len(want) {
 		w.Violationf("C12:udp-in:missing-datagram:"+cutClass+kindSuffix, "%d complete records precede the end-of-stream at offset %d but the application had only %d datagrams %v after it (application read ended: %v)", len(want), lim, appGotAtVerdict, c12Bound, appRerr)
 	}
 	// ---- application -> tunnel: the harness decoder must read back the datagrams
@@ -1164,7 +1282,9 @@ func c12UDP(w *simrt.World, via bool) {
 	if rest != 0 && !t.writeFailed && r.returned() {
 		w.Violationf("C12:udp-out:partial-record-at-clean-end", "the relay returned without any tunnel write failing but the far end holds %d stray bytes after %d records", rest, len(ds))
 	}
-	if appFirst && r.returned() && len(ds) < appSent && !t.writeFailed {
+	// (a relay that ends because the datagram side refused a write stops forwarding in
+	// both directions; that is the fault's doing, not a loss in the fault-free sense)
+	if appFirst && r.returned() && len(ds) < appSent && !t.writeFailed && local.writeFaults == 0 {
 		w.Violationf("C12:udp-out:missing-record:app-closes-first", "application sent %d datagrams and then closed; far end decoded %d", appSent, len(ds))
 	}
 
@@ -1250,12 +1370,12 @@ func init() {
 		Rule: "each run draws a relay kind (TCP iocopy.Bidirectional or UDP iocopy.UDP; called directly or through a real tunnel.Tunnel/runDataCopy) and a per-run configuration. " +
 			"TCP: two position-stamped payloads (0,1,small, around the 32K/64K buffers, up to 300K), write chunkings with pauses, per-end read segmentation law and buffer capacity, an end-of-stream script per side " +
 			"(half-close and read on / close / reset after part of the payload / send head, wait for the other side's EOF, send the rest), a tunnel with or without half-close support, optional rate-limiting transformer, " +
-			"optional transfer that stays active for >5 simulated minutes, optional tunnel cut (EOF or error, at a drawn byte offset, with or without data in the same Read, write side failing or not), and for each relay-side endpoint whether the natural end of its stream is reported together with the last chunk (n>0 with io.EOF, as TLS/QUIC streams do). " +
+			"optional slow transfer (chunks 1.5-21 s apart, below 4 minutes in total), relay-side endpoints that do or do not expose socket deadlines, optional transfer that stays active for >5 simulated minutes, optional tunnel cut (EOF or error, at a drawn byte offset, with or without data in the same Read, write side failing or not), and for each relay-side endpoint whether the natural end of its stream is reported together with the last chunk (n>0 with io.EOF, as TLS/QUIC streams do). " +
 			"UDP: two datagram sequences (sizes 1,2,3,255,256,1200,1472,9000,32768,65507; 0-70 datagrams incl. >32 and bursts over 128/256 KiB), pauses longer than the flush timers, the far end's write chunking and read law, and the position at which the tunnel stream ends or fails, " +
-			"drawn relative to a record (boundary, inside the 2-byte prefix, after the prefix, first payload byte, last payload byte missing, anywhere in the payload, clean end) or the application side closing first; the relay's datagram endpoint is a bare io.ReadWriteCloser, a socket-like endpoint whose read deadline interrupts a blocked Read, or the real mapping.UDPVirtualConn session of a UDPMappingAdapter fed through processPacket. " +
+			"drawn relative to a record (boundary, inside the 2-byte prefix, after the prefix, first payload byte, last payload byte missing, anywhere in the payload, clean end) or the application side closing first; optionally 1-3 consecutive writes to the datagram side fail (plain error, ECONNREFUSED or ENOBUFS as net.OpError) at a drawn position; the relay's datagram endpoint is a bare io.ReadWriteCloser, a socket-like endpoint whose read deadline interrupts a blocked Read, or the real mapping.UDPVirtualConn session of a UDPMappingAdapter fed through processPacket. " +
 			"Scheduler interleavings of the copy goroutines, flush goroutine and the four peer tasks are drawn by the scheduler. " +
 			"A run is non-trivial when (TCP) bytes were delivered to a side after that side had half-closed, or a reply was sent after the peer's EOF arrived through the relay, or a close/reset/cut fired in a run that carried data; " +
-			"or a relay-side endpoint reported EOF in the same Read as its last bytes; (UDP) the tunnel stream ended strictly inside a record, or ended at a boundary after datagrams had crossed in both directions. distinct = distinct schedule hash among those.",
+			"or a relay-side endpoint reported EOF in the same Read as its last bytes; or a slow transfer kept sending after the other side's half-close; (UDP) a write to the datagram side failed, or the tunnel stream ended strictly inside a record, or ended at a boundary after datagrams had crossed in both directions. distinct = distinct schedule hash among those.",
 		Real: []string{"internal/utils/iocopy Bidirectional, UDP, NewReadWriteCloser/readWriteCloser, tryCloseWrite", "internal/client/tunnel Tunnel (Start, runDataCopy, Close, monitorTimeout), DefaultTunnelManager",
 			"internal/stream/transform NoOpTransformer, RateLimitedTransformer", "internal/core/dispose",
 			"internal/client/mapping UDPMappingAdapter.processPacket/getOrCreateSession/Accept/Close and UDPVirtualConn (Read, Write, writeLoop, SetReadDeadline, Close) in a third of the UDP runs"},
@@ -1264,7 +1384,8 @@ func init() {
 		Assumptions: []string{
 			"'promptly' / 'once both directions have finished' = within 1 simulated second after the relay has been handed the end of the tunnel stream (UDP) or after both senders ended their write side / the tunnel was cut (TCP)",
 			"completeness of a direction is demanded only when nothing legitimately interrupts it: no reset on either link, the receiver keeps reading until EOF, no injected tunnel failure on that direction",
-			"pauses of about 2 minutes inside an active transfer are not an idle period that entitles a tunnel to be closed",
+			"pauses of about 2 minutes inside an active transfer are not an idle period that entitles a tunnel to be closed; neither are pauses of up to 21 s after one side has half-closed",
+			"when a write to the datagram side fails, losing datagrams (or ending the relay) is acceptable; delivering anything that was not sent, or twice, or out of order is not",
 			"datagrams are 1..65507 bytes (zero-length datagrams cannot be represented by the encoding and are not generated)",
 			"links deliver every byte in order; a transport error loses nothing already handed to the relay (the cut is exact)",
 		},
